@@ -187,7 +187,7 @@ def make_judges(ctx):
 
 def floors(tier):
     cells = [('rel', m, 'bound') for m in G.ROUNDINGS] + [('rel', 'around', 'tie-even')]
-    cells += [('monotone', m) for m in G.ROUNDINGS] + [('idempotent-noflag', m) for m in G.ROUNDINGS] + [('idempotent-indexed',), ('restore-int',)]
+    cells += [('monotone', m) for m in G.ROUNDINGS] + [('idempotent-noflag', m) for m in G.ROUNDINGS] + [('idempotent-indexed',), ('restore-int',), ('idempotent-like-flagged-template',)]
     return cells
 
 
@@ -259,6 +259,19 @@ def run_case(case, ctx):
     y.reset()
     y(y())
     y.set_val(y.get_val())
+    # representable values stored into NEW objects built like a template whose own flags are raised: the new object reports no flag
+    lo_t, hi_t = R.code_range(s, w)
+    try:
+        tmpl = Fxp(None, s, w, nf, rounding=r, overflow=o)
+        tmpl(float(F(hi_t) / F(2) ** nf) * 2 + 3.3)                  # overflow (and inexact)
+        tmpl(float(F(lo_t) / F(2) ** nf) * 2 - 3.3 if s else -1.0)  # underflow
+        if any(tmpl.status[f] for f in ('overflow', 'underflow', 'inaccuracy')):
+            Fxp(float(own[0]), like=tmpl)
+            Fxp(np.array([float(v) for v in own]), like=tmpl)
+            Fxp([float(own[0]), float(own[-1])], like=tmpl)
+            ctx.floor_hit(('idempotent-like-flagged-template',))
+    except Exception:
+        pass
     # inputs given as fixed-point values with more fraction bits than the destination (both signednesses)
     for ssrc in (True, False):
         wsrc = min(52, w + 6)
